@@ -976,6 +976,11 @@ func (env *Env) call(x *ast.CallExpr) (Val, error) {
 		if t == nil {
 			return Val{}, fmt.Errorf("astype: unknown type")
 		}
+		if !isRefLike(t) {
+			// a boxed scalar lives in a cell: astype reads the cell the interface value points to
+			l := vc.cellLoc(t, sApp("i-val", a.T))
+			return Val{T: vc.loadLoc(env.heap, l), Typ: t}, nil
+		}
 		r := Val{T: sApp("i-val", a.T), Typ: t}
 		vc.attachPtrLoc(&r)
 		return r, nil
